@@ -791,7 +791,45 @@ fn any_call_in_flight(ctx: &Ctx, seq: u64) -> bool {
 // C16: abandoned requests are all-or-nothing
 // =================================================================================================
 
+/// C16.half_done: in a plan whose fault is an abandoned request, once the server has come to rest
+/// (quiescent barrier) a create or delete that runs with no other create or delete since that
+/// barrier is answered as a map operation (OK, ALREADY_EXISTS, NOT_FOUND): an answer that says "the
+/// resource is in the middle of something" (FAILED_PRECONDITION / INTERNAL) shows that an earlier
+/// request - the abandoned one, or one it raced - was applied half.
+fn rule_half_done(ctx: &Ctx, out: &mut Vec<Violation>) {
+    if !ctx.plan.has_tag("cancel") {
+        return;
+    }
+    let m = ctx.m;
+    let is_mutation = |r: &Req| matches!(r, Req::CreateSub { .. } | Req::DeleteSub { .. } | Req::CreateTopic { .. } | Req::DeleteTopic { .. });
+    let muts: Vec<&Call> = m.calls.values().filter(|c| is_mutation(&c.req)).collect();
+    for c in muts.iter() {
+        if c.client == 0 || c.abandon_at > 0 || !matches!(c.out, Some(Outcome::Err(FAILED_PRECONDITION, _)) | Some(Outcome::Err(INTERNAL, _))) {
+            continue;
+        }
+        let Some(ret) = c.ret_seq else { continue };
+        let Some(b) = m.barriers.iter().rev().find(|b| b.quiescent && b.seq < c.inv_seq) else { continue };
+        if muts.iter().any(|o| o.id != c.id && o.inv_seq > b.seq && o.inv_seq < ret) {
+            continue;
+        }
+        // a request that hangs is C07's business
+        if muts.iter().any(|o| o.inv_seq < b.seq && o.ret_seq.is_none()) {
+            continue;
+        }
+        let what = match &c.req {
+            Req::CreateSub { sub, .. } => format!("CreateSubscription({sub})"),
+            Req::DeleteSub { sub } => format!("DeleteSubscription({sub})"),
+            Req::CreateTopic { topic } => format!("CreateTopic({topic})"),
+            Req::DeleteTopic { topic } => format!("DeleteTopic({topic})"),
+            _ => continue,
+        };
+        let kind = what.split('(').next().unwrap_or("").to_string();
+        out.push(v("C16.half_done", format!("conflict_at_rest:{kind}"), format!("{} (call {}) was answered {:?} although the server had come to rest (barrier {}) and no other create or delete ran since", what, c.id, c.out, b.seq)));
+    }
+}
+
 fn rule_c16(ctx: &Ctx, out: &mut Vec<Violation>) {
+    rule_half_done(ctx, out);
     let m = ctx.m;
     if !ctx.plan.has_tag("audit_lists") {
         return;
